@@ -6,6 +6,7 @@ The parser can be invoked standalone:
     python -m odml.tools.xmlparser file.odml
 """
 import csv
+import re
 import sys
 
 from os.path import basename
@@ -314,6 +315,12 @@ class XMLReader(object):
         :param string: XML string.
         :returns: a parsed odml.Document.
         """
+        if isinstance(string, str):
+            # lxml refuses text (str) that carries an XML declaration with an
+            # encoding; for text that is already decoded the declaration has no
+            # meaning, so it is removed. Files written by the XMLWriter start with one.
+            string = re.sub(r"^\s*<\?xml[^>]*\?>", "", string, count=1)
+
         try:
             root = ET.XML(string, self.parser)
         except ET.XMLSyntaxError as exc:
